@@ -319,3 +319,38 @@ Proof.
       intros _. replace (length h + 1)%nat with (S (length h)) by lia.
       destruct dflt; reflexivity.
 Qed.
+
+(* ---------- not a new interval; closed form ---------- *)
+
+Lemma guard_old nd t c : t <= c -> guard nd t c = true.
+Proof.
+  intros H. destruct nd; unfold guard, step_guard_DStream, step_guard_TransformedDStream,
+    step_guard_TransformedWithDStream, step_guard_CogroupedDStream; apply Z.leb_le; auto.
+Qed.
+
+(* a callback whose timestamp is not later than what every node has already processed changes nothing:
+   no get(), no function call *)
+Theorem tick_stutter g env t st :
+  length (ns st) = length g -> (forall i s, nth_error (ns st) i = Some s -> t <= ctime s) ->
+  tick g env t st = Some st.
+Proof.
+  intros Hlen Hold. unfold tick.
+  assert (H : forall order, (forall i, In i order -> (i < length g)%nat) -> step_all g env t order st = Some st).
+  { induction order as [|i order IH]; intros Hr; cbn [step_all]; auto.
+    assert (Hi : (i < length g)%nat) by (apply Hr; left; auto).
+    cbn [step].
+    destruct (nth_error g i) as [nd|] eqn:Hg; [|apply nth_error_None in Hg; lia].
+    destruct (nth_error (ns st) i) as [s|] eqn:Hs; [|apply nth_error_None in Hs; lia].
+    rewrite (guard_old nd t (ctime s) (Hold i s Hs)). apply IH. intros j Hj; apply Hr; right; auto. }
+  apply H. intros i Hi. apply in_seq in Hi. lia.
+Qed.
+
+(* closed form: after a tick every node holds a function of the batches delivered in THIS interval only *)
+Theorem tick_denot g env t st :
+  wf g -> length (ns st) = length g -> (forall i s, nth_error (ns st) i = Some s -> ctime s < t) ->
+  exists st', tick g env t st = Some st' /\
+    forall i, (i < length g)%nat -> crdd_at st' i = nth i (denot g t (delivered g env st)) RNone.
+Proof.
+  intros Hwf Hlen Hlt. exists (tick_spec g env t st). split; [apply tick_refines; auto|].
+  intros i Hi. rewrite crdd_at_map, tick_spec_crdds. reflexivity.
+Qed.
